@@ -163,15 +163,26 @@ def hyp_bound(c):
   return 2.0 ** (24 + se)
 
 
-def build(c):
+def build(c, via_attribute=False):
+  """via_attribute: `symmetric` is a plain, documented-modifiable attribute of quantized_bits / quantized_linear (the library
+  itself assigns it: _set_trainable_parameter, QAdaptiveActivation.build); build the quantizer with the OTHER value and assign
+  the wanted one afterwards -- the function must be the one of the format the quantizer now reports"""
   import qkeras.quantizers as Q
   f = c["fam"]
   if f == "qbits":
+    if via_attribute:
+      q = Q.quantized_bits(c["bits"], c["integer"], 1 - int(bool(c["sym"])), keep_negative=bool(c["kn"]), alpha=c["alpha"])
+      q.symmetric = c["sym"]
+      return q
     return Q.quantized_bits(c["bits"], c["integer"], c["sym"], keep_negative=bool(c["kn"]), alpha=c["alpha"])
   if f == "qlin":
     a = c["alpha"]
     if a is not None:
       a = np.float32(a)
+    if via_attribute:
+      q = Q.quantized_linear(c["bits"], c["integer"], 1 - int(bool(c["sym"])), keep_negative=bool(c["kn"]), alpha=a)
+      q.symmetric = c["sym"]
+      return q
     return Q.quantized_linear(c["bits"], c["integer"], c["sym"], keep_negative=bool(c["kn"]), alpha=a)
   if f == "qrelu":
     rub = None
@@ -314,8 +325,13 @@ def run(rep, prop):
       files.append((name, HEADER + "".join(shard), list(shard_items)))
     shard, shard_n, shard_items = [], 0, []
 
+  n_attr = 0
   for ci, c in enumerate(cfgs):
-    q = build(c)
+    via_attr = c["fam"] in ("qbits", "qlin") and ci % 2 == 1
+    n_attr += int(via_attr)
+    q = build(c, via_attribute=via_attr)
+    if via_attr and int(bool(q.get_config().get("symmetric"))) != int(bool(c["sym"])):
+      rep.violation(f"symmetric-not-reported-{ci}", f"{describe(c)}: get_config() does not report the assigned symmetric", {"config": c})
     tensors = inputs_for(c, rng, tier)
     xs_all, ys_all = [], []
     for t in tensors:
@@ -365,5 +381,5 @@ def run(rep, prop):
       results[ci]["coq"] = dict(ok=ok, skip=skip, nf=nf, bad=bad)
   rep.note(model_vs_impl=dict(configs=len(cfgs), inputs=n_inputs, agree=tot_ok,
                               outside_hypothesis_skipped=tot_skip, non_finite=tot_nf,
-                              configs_per_family=fam_count))
+                              configs_per_family=fam_count, built_by_assigning_symmetric_after_construction=n_attr))
   return results
